@@ -74,8 +74,42 @@ pub fn apply<'a>(p: Parser<'a>, op: &str, pat: &str, n: usize, as_char: bool) ->
         "parse_u8" => p.parse_u8().map(|(v, q)| (Ret::Int(v as i64), q)),
         "parse_i8" => p.parse_i8().map(|(v, q)| (Ret::Int(v as i64), q)),
         "parse_bool" => p.parse_bool().map(|(v, q)| (Ret::Bool(v), q)),
+        "pm_strip_prefix" | "pm_strip_suffix" | "pm_find_skip" | "pm_rfind_skip" | "pm_trim_start_matches"
+        | "pm_trim_end_matches" => Ok(apply_pm(p, op, n)),
         _ => panic!("unknown Parser op {op}"),
     }
+}
+
+/// parser_method! forms; `k` selects one of the alternative lists of Parser.tla's PmAlts
+fn apply_pm<'a>(mut p: Parser<'a>, op: &str, k: usize) -> (Ret, Parser<'a>) {
+    macro_rules! branching {
+        ($form:ident) => {
+            match k {
+                1 => konst::parser_method! {p, $form; "a" => 1, "a," => 2, _ => 0},
+                2 => konst::parser_method! {p, $form; "ñ" => 1, "," => 2, _ => 0},
+                _ => konst::parser_method! {p, $form; "a," => 1, " " => 2, _ => 0},
+            }
+        };
+    }
+    macro_rules! trimming {
+        ($form:ident) => {{
+            match k {
+                1 => konst::parser_method! {p, $form; "a" | "a,"},
+                2 => konst::parser_method! {p, $form; "ñ" | ","},
+                _ => konst::parser_method! {p, $form; "a," | " "},
+            };
+            0
+        }};
+    }
+    let b: i64 = match op {
+        "pm_strip_prefix" => branching!(strip_prefix),
+        "pm_strip_suffix" => branching!(strip_suffix),
+        "pm_find_skip" => branching!(find_skip),
+        "pm_rfind_skip" => branching!(rfind_skip),
+        "pm_trim_start_matches" => trimming!(trim_start_matches),
+        _ => trimming!(trim_end_matches),
+    };
+    (Ret::Int(b), p)
 }
 
 /// projection of the parser on the abstract state; lo/hi by pointer position inside `orig`
@@ -160,7 +194,8 @@ pub fn replay(s: &mut Summary, v: &V) {
 pub fn record(rng: &mut SmallRng, n_events: usize, out: &mut dyn Write) {
     let alpha: [&str; 9] = ["a", ",", "ñ", " ", "1", "-", "\t", "b", "√"];
     let pats: [&str; 6] = ["a", "ñ", ",", "a,", " ", "ab"];
-    const OPS: [&str; 20] = ["trim", "trim_start", "trim_end", "trim_matches", "trim_start_matches",
+    const OPS: [&str; 26] = ["pm_strip_prefix", "pm_strip_suffix", "pm_find_skip", "pm_rfind_skip", "pm_trim_start_matches",
+        "pm_trim_end_matches", "trim", "trim_start", "trim_end", "trim_matches", "trim_start_matches",
         "trim_end_matches", "strip_prefix", "strip_suffix", "find_skip", "rfind_skip", "split", "rsplit",
         "split_keep", "split_terminator", "rsplit_terminator", "skip", "skip_back", "parse_u8", "parse_i8",
         "parse_bool"];
@@ -188,7 +223,7 @@ pub fn record(rng: &mut SmallRng, n_events: usize, out: &mut dyn Write) {
             }
             let op = OPS[rng.gen_range(0..OPS.len())];
             let pat = pats[rng.gen_range(0..pats.len())];
-            let n = if rng.gen_bool(0.2) { rng.gen_range(0..100) } else { rng.gen_range(0..4) };
+            let n = if op.starts_with("pm_") { rng.gen_range(1..=3) } else if rng.gen_bool(0.2) { rng.gen_range(0..100) } else { rng.gen_range(0..4) };
             let as_char = pat.chars().count() == 1 && rng.gen_bool(0.5);
             let r = std::panic::catch_unwind(std::panic::AssertUnwindSafe(|| apply(p, op, pat, n, as_char)));
             let ev = match r {
